@@ -255,10 +255,36 @@ def fast_del(enable=True):
             mod.gc = real_gc
 
 
+def duplicate(sketch, how):
+    """copy.copy / copy.deepcopy / pickle round trip of an ordinary (non shared-memory) sketch object."""
+    import copy
+    import pickle
+
+    if how == "deepcopy":
+        return copy.deepcopy(sketch)
+    if how == "pickle":
+        return pickle.loads(pickle.dumps(sketch))
+    c = copy.copy(sketch)
+    # a shallow copy shares the arrays with the original: give it its own so that the two can diverge legitimately
+    for a in ARRAYS[kind_of(sketch)]:
+        setattr(c, a, np.array(getattr(sketch, a), copy=True))
+    if hasattr(sketch, "buckets"):
+        c.buckets = np.array(sketch.buckets, copy=True)
+    if hasattr(sketch, "rand_nums"):
+        c.rand_nums = np.array(sketch.rand_nums, copy=True)
+    if hasattr(sketch, "candidate_set"):
+        c.candidate_set = copy.copy(sketch.candidate_set)
+    return c
+
+
 def save_load(sketch, kind, shared_memory=False, via_module=False):
     """save() to a temp file and load it back through the class loader (or countmin.load)."""
     s = sk()
     path = tmp_path(".npz")
+    if (len(path) + int(shared_memory)) % 2:
+        from pathlib import Path
+
+        path = Path(path)  # file names are documented as str | Path
     try:
         sketch.save(path)
         if kind == "hh":
